@@ -126,6 +126,7 @@ enum Ev {
     Data(usize),
     Fail,  // io::ErrorKind::Other: returned to the caller of read_line
     Intr,  // io::ErrorKind::Interrupted: retried inside std's read_until
+    Eof,   // fill_buf returns an empty slice ONCE although more data follows (transient end of input)
 }
 
 fn parse_script(s: &str) -> Vec<Ev> {
@@ -134,6 +135,7 @@ fn parse_script(s: &str) -> Vec<Ev> {
         .map(|x| match x {
             "Eo" => Ev::Fail,
             "Ei" => Ev::Intr,
+            "Ez" => Ev::Eof,
             n => Ev::Data(n.parse().unwrap()),
         })
         .collect()
@@ -141,7 +143,8 @@ fn parse_script(s: &str) -> Vec<Ev> {
 
 /// A `BufRead` driven by a script: when the current chunk is used up, `fill_buf` takes the next
 /// event -- `Data(n)` makes the next n bytes available (skipped when no byte is left), `Fail` /
-/// `Intr` make this call of `fill_buf` return an error (once) -- and, when the script is used up,
+/// `Intr` make this call of `fill_buf` return an error (once), `Eof` (`Ez`) makes it return an empty slice
+/// (once: a transient end of input) -- and, when the script is used up,
 /// delivers the rest of the data as one chunk.  (Model: TransfacFault.estream.)
 struct EvChunked {
     data: Vec<u8>,
@@ -179,6 +182,7 @@ impl BufRead for EvChunked {
                 match ev {
                     Ev::Fail => return Err(std::io::Error::new(std::io::ErrorKind::Other, "injected fault")),
                     Ev::Intr => return Err(std::io::Error::new(std::io::ErrorKind::Interrupted, "injected interrupt")),
+                    Ev::Eof => return Ok(&self.data[self.pos..self.pos]),
                     Ev::Data(n) => self.end = (self.pos + n.max(1)).min(self.data.len()),
                 }
             } else if self.end < self.data.len() {
@@ -1340,14 +1344,15 @@ fn utf8_damage(rng: &mut Rng, base: &[u8]) -> Vec<u8> {
     d
 }
 
-/// A script for `EvChunked`: chunk sizes with `fill_buf` failures (Eo) / interruptions (Ei) between them.
+/// A script for `EvChunked`: chunk sizes with `fill_buf` failures (Eo) / interruptions (Ei) / transient ends of
+/// input (Ez: an empty slice although more data follows) between them.
 fn gen_script(rng: &mut Rng, len: usize) -> String {
     let mut ev: Vec<String> = vec![];
     match rng.below(4) {
         0 => {
             // one fault after a random number of bytes (any offset: inside a line, inside a character)
             ev.push((1 + rng.below(len as u64 + 1)).to_string());
-            ev.push("Eo".to_string());
+            ev.push(if rng.chance(1, 4) { "Ez" } else { "Eo" }.to_string());
         }
         1 => {
             // faults after a few random prefixes, then the rest
@@ -1356,7 +1361,7 @@ fn gen_script(rng: &mut Rng, len: usize) -> String {
                 let n = 1 + rng.below(left.max(1));
                 left = left.saturating_sub(n);
                 ev.push(n.to_string());
-                ev.push(if rng.chance(1, 5) { "Ei" } else { "Eo" }.to_string());
+                ev.push(match rng.below(6) { 0 => "Ei", 1 => "Ez", _ => "Eo" }.to_string());
             }
         }
         2 => {
@@ -1377,13 +1382,15 @@ fn gen_script(rng: &mut Rng, len: usize) -> String {
         _ => {
             // small chunks with sprinkled faults
             for _ in 0..2 + rng.below(12) {
-                let k = rng.below(10);
+                let k = rng.below(11);
                 if k < 6 {
                     ev.push((1 + rng.below(12)).to_string());
                 } else if k < 9 {
                     ev.push("Eo".to_string());
-                } else {
+                } else if k < 10 {
                     ev.push("Ei".to_string());
+                } else {
+                    ev.push("Ez".to_string());
                 }
             }
         }
